@@ -34,7 +34,7 @@ use crate::pushio::*;
 use crate::*;
 
 pub const PROP: Prop = Prop { name: "C16", gen, run };
-pub const NOPS: usize = 36;
+pub const NOPS: usize = 40;
 
 struct Alpha(Vec<i64>);
 impl Distribution<i64> for Alpha {
@@ -66,6 +66,21 @@ fn triple_args<O>(seed: u64, mk: impl Fn() -> O, call: impl Fn(&O, &mut Sm, usiz
         tl![L(r), a(rng.next())]
     };
     tl![run(&mk(), Sm::new(seed), 0), run(&mk(), Sm::new(seed), 1), run(&mk(), Sm::new(seed), 2)]
+}
+/// histories: runs A and B use fresh values; run C uses a value with a PAST (`mk_used` builds it, making calls of
+/// other kinds - other arguments, builder calls in between - with another generator on the way); then every run
+/// makes the same four calls (of alternating kinds) from a generator cloned from the same seed
+fn triple_hist<O>(seed: u64, mk: impl Fn() -> O, mk_used: impl Fn(&mut Sm) -> O, call: impl Fn(&O, &mut Sm, usize) -> Tree) -> Tree {
+    let run = |op: &O, mut rng: Sm| {
+        let r: Vec<Tree> = (0..4).map(|k| call(op, &mut rng, k)).collect();
+        tl![L(r), a(rng.next())]
+    };
+    let ra = run(&mk(), Sm::new(seed));
+    let rb = run(&mk(), Sm::new(seed));
+    let mut other = Sm::new(seed ^ 0x5555_AAAA);
+    let used = mk_used(&mut other);
+    let rc = run(&used, Sm::new(seed));
+    tl![ra, rb, rc]
 }
 /// a copy of `v` with `extra` spare capacity
 fn roomy<T: Clone>(v: &[T], extra: usize) -> Vec<T> {
@@ -130,6 +145,65 @@ fn run_op(op: usize, seed: u64, data: &[i64]) -> Option<Tree> {
         33 => triple_args(seed, || UniformXo, |m, rng, v| res(m.recombine([roomy(&g64, rooms[v].0), roomy(&g2, rooms[v].1)], rng), |c| ints(&c))),
         34 => triple_args(seed, || WithOneOverLength, |m, rng, v| bits(&m.mutate(roomy(&gb[..1.max(gb.len() % 3)], rooms[v].0 + rooms[v].1), rng).unwrap())),
         35 => triple_args(seed, || WithRate::new(0.3), |m, rng, v| bits(&m.mutate(roomy(&gb, rooms[v].0 + rooms[v].1), rng).unwrap())),
+        // UMAD with an empty-genome addition rate that differs from the addition rate, on empty and non-empty
+        // genomes in turn; the used value met them in the opposite order
+        36 => {
+            let mk = || Umad::new_with_empty_rate(0.25, 0.95, 0.2, BoolGenerator::new(0.5));
+            let arg = |k: usize| Bitstring { bits: if k % 2 == 0 { gb.clone() } else { vec![] } };
+            triple_hist(
+                seed,
+                mk,
+                |other| {
+                    let m = mk();
+                    for k in [1usize, 0, 1, 1, 0] {
+                        let _ = m.mutate(arg(k), other);
+                    }
+                    m
+                },
+                |m, rng, k| bits(&m.mutate(arg(k), rng).unwrap().bits),
+            )
+        }
+        37 => {
+            let mk = || Umad::new_with_empty_rate(0.9, 0.1, 0.3, Alpha(vec![40, 41]));
+            let arg = |k: usize| Vector { genes: if k % 2 == 1 { g64.clone() } else { vec![] } };
+            triple_hist(
+                seed,
+                mk,
+                |other| {
+                    let m = mk();
+                    for k in [1usize, 1, 0] {
+                        let _ = m.mutate(arg(k), other);
+                    }
+                    m
+                },
+                |m, rng, k| ints(&m.mutate(arg(k), rng).unwrap().genes),
+            )
+        }
+        // a dynamic weighted selector that was USED between its builder calls against one built in one go
+        38 | 39 => {
+            use ec_core::operator::selector::best::Best;
+            use ec_core::operator::selector::dyn_weighted::DynWeighted;
+            use ec_core::operator::selector::random::Random;
+            use ec_core::operator::selector::worst::Worst;
+            let w0 = if op == 38 { 1 } else { 0 };
+            let mk = || DynWeighted::<Pop<Score<i64>>>::new(Best, w0).with_selector(Worst, 2).with_selector(Random, 3);
+            triple_hist(
+                seed,
+                mk,
+                |other| {
+                    let d = DynWeighted::<Pop<Score<i64>>>::new(Best, w0);
+                    let _ = d.select(&big, other);
+                    let _ = d.select(&big, other);
+                    let d = d.with_selector(Worst, 2);
+                    let _ = d.select(&big, other);
+                    d.with_selector(Random, 3)
+                },
+                |d, rng, _| match d.select(&big, rng) {
+                    Ok(r) => tl![A(0), idx(&big, r)],
+                    Err(e) => tl![A(1), L(e.to_string().bytes().map(a).collect())],
+                },
+            )
+        }
         26 => sel_big(tl![A(3), A(2)])?,
         27 => sel_big(tl![A(3), A(3)])?,
         28 => sel_big(tl![A(4), A(2)])?,
@@ -283,9 +357,113 @@ fn run_push(l: &[Tree]) -> Option<Tree> {
     Some(L(v))
 }
 
+/// kind 2: [2, n, order seed] - a program that reads n inputs (named in0 .. in{n-1}, input i bound to 7 i + 1) once
+/// each, in order, with the inputs declared forwards, backwards and in a shuffled order.
+/// observation: [[int stack size, hash of the int stack top first] per declaration order] | [[-1, error kind]]
+/// (with this many names, identifying names by anything shorter than the name - say a 32-bit hash - confuses some)
+fn run_many_names(n: usize, oseed: u64) -> Option<Tree> {
+    use push::instruction::variable_name::VariableName;
+    use push::push_vm::program::PushProgram;
+    use push::push_vm::push_state::PushState;
+    use push::push_vm::HasStack;
+    if n == 0 || n > 2_000_000 {
+        return None;
+    }
+    let name = |i: usize| format!("in{i}");
+    let value = |i: usize| (i as i64) * 7 + 1;
+    let mut shuffled: Vec<usize> = (0..n).collect();
+    let mut r = Sm::new(oseed);
+    for i in (1..n).rev() {
+        shuffled.swap(i, r.below(i + 1));
+    }
+    const P: u128 = (1 << 61) - 1;
+    let mut out = vec![];
+    for order in [(0..n).collect::<Vec<_>>(), (0..n).rev().collect(), shuffled] {
+        let mut b = PushState::builder().with_max_stack_size(0).with_no_program().with_instruction_step_limit(n + 5);
+        for &i in &order {
+            b = b.with_int_input(&name(i), value(i));
+        }
+        let mut s = b.build();
+        let progs: Vec<PushProgram> = (0..n).map(|i| PushProgram::Instruction(PushInstruction::InputVar(VariableName::from(name(i).as_str())))).collect();
+        s.stack_mut::<PushProgram>().set_max_stack_size(n);
+        s.stack_mut::<PushProgram>().push_many(progs).ok()?;
+        s.stack_mut::<i64>().set_max_stack_size(n);
+        match s.run_to_completion() {
+            Ok(s) => {
+                let mut st = s.stack::<i64>().clone();
+                let mut h: u128 = 0;
+                let mut len = 0usize;
+                while let Ok(x) = st.pop() {
+                    h = (h * 1_000_003 + (x.rem_euclid(P as i64) as u128)) % P;
+                    len += 1;
+                }
+                out.push(tl![au(len), a(h as i128)]);
+            }
+            Err(e) => {
+                let d = format!("{e:?}");
+                out.push(tl![A(-1), A(if d.contains("Overflow") { 2 } else if d.contains("Underflow") { 1 } else { 3 })]);
+            }
+        }
+    }
+    Some(L(out))
+}
+
+/// pairs of distinct names that collide under common short hashes (FNV-1a 32, CRC-32, Java's String::hashCode,
+/// djb2) or differ only in ways a normalising comparison would ignore
+const COLLIDING: &[(&str, &str)] = &[
+    ("costarring", "liquid"),
+    ("declinate", "macallums"),
+    ("altarage", "zinke"),
+    ("plumless", "buckeroo"),
+    ("Aa", "BB"),
+    ("AaAa", "BBBB"),
+    ("hetairas", "mentioner"),
+    ("heliotropes", "neurospora"),
+    ("x", "X"),
+    ("x", "x "),
+    ("x", " x"),
+    ("x1", "x01"),
+    ("caf\u{e9}", "cafe\u{301}"),
+    ("ab", "ba"),
+    ("", " "),
+];
+/// kind 3: [3, k] - both names of pair k bound to 11 and 22 (declared in either order), read first then second.
+/// observation: [[int stack top first] per declaration order]
+fn run_colliding(k: usize) -> Option<Tree> {
+    use push::instruction::variable_name::VariableName;
+    use push::push_vm::program::PushProgram;
+    use push::push_vm::push_state::PushState;
+    use push::push_vm::HasStack;
+    let (n1, n2) = *COLLIDING.get(k)?;
+    let mut out = vec![];
+    for fwd in [true, false] {
+        let b = PushState::builder().with_max_stack_size(0).with_no_program().with_instruction_step_limit(10);
+        let b = if fwd { b.with_int_input(n1, 11).with_int_input(n2, 22) } else { b.with_int_input(n2, 22).with_int_input(n1, 11) };
+        let mut s = b.build();
+        let progs: Vec<PushProgram> = [n1, n2].iter().map(|n| PushProgram::Instruction(PushInstruction::InputVar(VariableName::from(*n)))).collect();
+        s.stack_mut::<PushProgram>().set_max_stack_size(2);
+        s.stack_mut::<PushProgram>().push_many(progs).ok()?;
+        s.stack_mut::<i64>().set_max_stack_size(2);
+        match s.run_to_completion() {
+            Ok(s) => {
+                let mut st = s.stack::<i64>().clone();
+                let mut v = vec![];
+                while let Ok(x) = st.pop() {
+                    v.push(a(x));
+                }
+                out.push(L(v));
+            }
+            Err(_) => out.push(tl![A(-1)]),
+        }
+    }
+    Some(L(out))
+}
+
 fn run(input: &Tree) -> Option<Tree> {
     let l = input.list()?;
     match l.first()?.int()? {
+        3 if l.len() == 2 => run_colliding(l.get(1)?.usize()?),
+        2 if l.len() == 3 => run_many_names(l.get(1)?.usize()?, l.get(2)?.u64()?),
         0 => {
             let data: Vec<i64> = l.get(3)?.list()?.iter().map(Tree::i64).collect::<Option<_>>()?;
             run_op(l.get(1)?.usize()?, l.get(2)?.u64()?, &data)
@@ -332,6 +510,15 @@ fn gen(tier: &str, rng: &mut Sm) -> Gen {
         let state = tl![A(10), L(vec![tl![A(27)], block]), A(5), L(vec![A(0)]), A(2), L(vec![]), A(2), L(vec![]), L(vec![]), au(1_200_001)];
         g.inputs.push(tl![A(1), strings, state, A(0)]);
     }
-    g.meta("generator", format!("{NOPS} operators / generators / compositions of the three crates x {reps} seeds (fresh value twice, used value once, three consecutive calls each, next generator word compared); Push programs with 2-3 bound inputs under every permutation of the declarations, each built state run twice"));
+    // very many distinct input names (declared forwards, backwards, shuffled)
+    // (the interpreter looks an input up by scanning all declarations, so the cost is quadratic in their number)
+    for n in if tier == "thorough" { vec![1usize, 2, 1000, 3000, 20_000] } else { vec![1usize, 3, 1000, 3000] } {
+        g.inputs.push(tl![A(2), au(n), a(rng.next() >> 1)]);
+    }
+    // pairs of names known to collide under widely used short hash functions
+    for k in 0..COLLIDING.len() {
+        g.inputs.push(tl![A(3), au(k)]);
+    }
+    g.meta("generator", format!("{NOPS} operators / generators / compositions of the three crates x {reps} seeds (fresh value twice, used value once, three consecutive calls each, next generator word compared); Push programs with 2-3 bound inputs under every permutation of the declarations, each built state run twice; programs reading up to 3000 (thorough: 20000) distinctly named inputs declared forwards, backwards and shuffled; pairs of names that collide under common short hash functions or differ only in case / spacing / normalisation; operator values with a past of other kinds of calls (UMAD on empty / non-empty genomes with distinct rates; a dynamic weighted selector used between its builder calls)"));
     g
 }
